@@ -362,6 +362,7 @@ func (g *gen) chain(fam string) Desc {
 	noComplete := false
 	mismatchComplete := false
 	retained := false
+	failAt := -1
 	switch fam {
 	case "timeout":
 		d.Hint = "timeout"
@@ -385,6 +386,14 @@ func (g *gen) chain(fam string) Desc {
 		d.Echo = false
 		cut = r.Intn(k)
 		noComplete = r.Intn(2) == 0
+	case "failrun":
+		// a callback function returns an error on its first run; the application retries with the
+		// same callback objects and the trigger holds again
+		d.Hint = "any"
+		failAt = r.Intn(k)
+		for d.Input == "" {
+			d.Input = inputs[r.Intn(len(inputs))]
+		}
 	case "once":
 		d.Hint = "any"
 		repeatAt, repeatN = r.Intn(k), 1+r.Intn(2)
@@ -449,6 +458,15 @@ func (g *gen) chain(fam string) Desc {
 		if retained && i == repeatAt {
 			cb.Once, cb.NoReset = true, true
 		}
+		if i == failAt {
+			cb.Once = r.Intn(4) != 0
+			cb.FailRun = 1
+			cb.FailKind = []string{"own", "own-early", "write", "write"}[r.Intn(4)]
+		} else if r.Intn(40) == 0 {
+			// now and then a later run of some callback fails (within one operation, too)
+			cb.FailRun = 1 + r.Intn(2)
+			cb.FailKind = []string{"own", "own-early", "write"}[r.Intn(3)]
+		}
 		cb.ResetOpt = !cb.NoReset && r.Intn(5) == 0
 		if i == ntAt {
 			cb.NextMs = ntMs
@@ -507,6 +525,9 @@ func (g *gen) chain(fam string) Desc {
 	r.Shuffle(len(cbs), func(i, j int) { cbs[i], cbs[j] = cbs[j], cbs[i] })
 	d.CBs = cbs
 	if fam == "chain" && d.Input != "" && r.Intn(5) < 2 {
+		d.Rounds = 2 + r.Intn(2)
+	}
+	if fam == "failrun" {
 		d.Rounds = 2 + r.Intn(2)
 	}
 	g.transport(&d)
@@ -647,16 +668,18 @@ func GenCase(r *rand.Rand) Desc {
 		switch {
 		case x < 15:
 			d = g.silent()
-		case x < 35:
+		case x < 33:
 			d = g.chain("quiet")
-		case x < 55:
+		case x < 52:
 			d = g.chain("timeout")
-		case x < 80:
+		case x < 76:
 			d = g.chain("chain")
-		case x < 87:
+		case x < 83:
 			d = g.chain("once")
-		case x < 95:
+		case x < 90:
 			d = g.soup()
+		case x < 95:
+			d = g.chain("failrun")
 		default:
 			d = g.chain("nexttimeout")
 		}
@@ -673,7 +696,7 @@ func init() {
 		Level: "exploration",
 		Rule: "PRNG-generated callback lists (1-6 callbacks: contains / upper-case contains under insensitivity / case-sensitive / regexp in lower case, end-anchored, " +
 			"with own (?i) / contains+regexp / not-contains present-before, present-after, absent, other case / once / complete / complete without function / " +
-			"reset-output off / next-timeout; in 55 % of the cases trigger texts, patterns, not-contains texts and device output use letters with case from the Latin-1 supplement, " +
+			"reset-output off / next-timeout / functions that return an error on a chosen run (own validation error, or a one-shot transport write fault on the answer's return character); in 55 % of the cases trigger texts, patterns, not-contains texts and device output use letters with case from the Latin-1 supplement, " +
 			"Cyrillic, Greek and a few whose case mapping changes the byte length, printed by the device in lower / Title / UPPER case) against a causal scripted device (answers typed by the callbacks advance the dialogue; echo on/off; repeated questions; " +
 			"several keywords in one text; decoys sharing keywords) under PRNG segmentation (1..16-byte, whole, geometric, mixed reads; boundaries fall inside multi-byte letters); texts of very different length so that the output a callback " +
 			"object is checked against shrinks and grows; 40 % of the chains with an input repeat the operation 2-3 times with the same callback objects. " +
@@ -685,7 +708,10 @@ func init() {
 			"device output is valid UTF-8 without CR/ESC, so one transport read is one unmodified chunk of the operation (checked by the generator)",
 			"case-insensitive = output and text lower-cased with the Unicode simple case mapping on both sides (patterns matched against the lower-cased output); letters for which other readings exist " +
 				"(sharp s, final sigma, dotless/dotted i, micro sign) and invalid UTF-8 are not generated; every vocabulary word round-trips lower->upper->lower (checked at start-up)",
-			"a once callback stays spent across the operations of one session (the flag lives in the callback object)",
+			"a once callback stays spent across the operations of one session (the flag lives in the callback object); it is spent once its function was entered, whatever the function returned " +
+				"(the property says 'never runs twice'); runs are counted inside the callback functions",
+			"a callback function that returns an error ends the operation with that error (the session then retries with the same callback objects); " +
+				"on the injected write fault the device drops its partial input line",
 			"every callback that is neither once nor complete resets the output and its trigger does not hold on the empty output (otherwise the statement itself implies endless refiring); checked by brute force with the reference trigger",
 			"patterns are written in lower case, or carry their own (?i), or belong to a case-sensitive callback",
 			"the boundary of the previous firing is examined again only if a poll came back empty, so a trigger holding there is not required to fire when later chunks exist",
